@@ -97,6 +97,23 @@ def epic_dep_store(ctx):
     return st
 
 
+def blocker_store(ctx, r):
+    """blocked tasks whose own title takes up 30–70 columns, blocked by tasks with titles of 3–40 columns (ASCII and wide characters): the row has
+    to fit the title, the `⧗ blocker` annotation and the id column whatever the proportions"""
+    st = Rec(ctx)
+    def new(kind, d):
+        return json.loads(st.exec(["--json", "new", kind], json.dumps(d).encode())["stdout"])["id"]
+    e = new("epic", {"title": "layout"})
+    for k in range(5):
+        n1 = [30, 42, 50, 59, 70][k] + r.n(3)
+        n2 = [3, 13, 20, 28, 40][(k + r.n(5)) % 5]
+        fill = r.pick(["x", "w", "日", "é"])
+        blocker = new("task", {"title": ("blocker " + fill * 60)[:n2], "epic": e if k % 2 else ""})
+        blocked = new("task", {"title": ("a task with a long descriptive title " + fill * 80)[:n1], "epic": e if k % 2 else ""})
+        st.exec(["--json", "sequence", blocker, blocked])
+    return st
+
+
 def build_store(ctx, r):
     st = Rec(ctx)
     epics, tasks = [], []
@@ -243,8 +260,8 @@ def run(ctx):
     special_cases(ctx)
     r = gen.Rng(ctx.seed * 1000003 + 19)
     widths = [None, 14, 16, 20, 40, 80, 132, 240]
-    for h in range(8 if ctx.quick else 80):
-        st = profile_store(ctx) if h == 0 else epic_dep_store(ctx) if h == 1 else build_store(ctx, r.fork())
+    for h in range(9 if ctx.quick else 80):
+        st = profile_store(ctx) if h == 0 else epic_dep_store(ctx) if h == 1 else blocker_store(ctx, r.fork()) if h == 2 else build_store(ctx, r.fork())
         try:
             g = st.graph()["graph"]
             trace = list(st.cmds)
